@@ -66,9 +66,13 @@ RT_AX = [C("forall('Inst', lambda i: marked(ser_task_pv(i), '_is_task') and (des
          C("forall('Cls', lambda c: fullname_cls(cls_fullname(c)) == c)", 'A-import: an enum class is importable under the module path and qualified name recorded for it')]
 R.lemma('C09/round-trip/step-PV', vars={'v': 'PV'},
     hyps=RT_AX + [C("implies(is_PTuple(v), implies(wfv_list(titems(v)), norm_list(deser_list(ser_list(titems(v)))) == rtmap_list(titems(v))))", 'IH tuple items'),
-                  C("forall('PE','Str', lambda x, k: ents_has(ser_ents(x), k) == ents_has(x, k))", 'THEOREM C09/keys-kept (proved by its own induction step)'),
+                  C("(ents_has(ser_ents(fents(v)), '_is_task') == ents_has(fents(v), '_is_task')) and (ents_has(ser_ents(fents(v)), '_is_enum') == ents_has(fents(v), '_is_enum'))",
+                    'two INSTANCES of THEOREM C09/keys-kept (proved by its own induction step): x := fents(v), k := each marker key'),
                   C("implies(is_PFrozen(v), implies(wfv_ents(fents(v)), norm_ents(deser_ents(ser_ents(fents(v)))) == rtmap_ents(fents(v))))", 'IH frozendict entries')],
-    goal="implies(wfv(v), norm(deser(ser(v))) == rtmap(v))", serves=('C09',), note='constructing the task again normalises lists back to tuples and dicts to frozendicts')
+    goal="implies(wfv(v), norm(deser(ser(v))) == rtmap(v))", serves=('C09',), note='constructing the task again normalises lists back to tuples and dicts to frozendicts',
+    # proved by cases, each with only the hypotheses it needs (0,1 = RT axioms; 2 = IH tuple; 3 = keys-kept instances; 4 = IH frozendict)
+    cases={'scalar': ('is_PNone(v) or is_PBool(v) or is_PInt(v) or is_PFloat(v) or is_PStr(v)', []), 'enum': ('is_PEnum(v)', [1]), 'task': ('is_PTask(v)', [0]),
+           'tuple': ('is_PTuple(v)', [2]), 'frozendict': ('is_PFrozen(v)', [3, 4]), 'unnormalised': ('is_PList(v) or is_PDict(v) or is_POther(v)', [])})
 R.lemma('C09/round-trip/step-PL', vars={'l': 'PL'},
     hyps=RT_AX + [C("implies(is_LCons(l), implies(wfv(head(l)), norm(deser(ser(head(l)))) == rtmap(head(l))) and implies(wfv_list(tail(l)), norm_list(deser_list(ser_list(tail(l)))) == rtmap_list(tail(l))))", 'IH head and tail')],
     goal="implies(wfv_list(l), norm_list(deser_list(ser_list(l))) == rtmap_list(l))", serves=('C09',))
@@ -95,9 +99,15 @@ R.lemma('C07/serialisation-injective', vars={'a': 'PV', 'b': 'PV'},
 # ---- C07 (iv): every key of a module-level task type is accepted by validate_file_path_key's character test
 KEY_HYPS = [C("is_identifier(q)", 'qualified name of a module-level class: an identifier'), C("is_hex40(h)", 'sha1 hexdigest'),
             C("(prefix == 'pickle__') or (prefix == '')", 'KEY_PREFIX of the provided caches')]
+# decomposed so that each query is one the string solver decides in milliseconds on every run (the one-step form
+# `not contains(concat(prefix, q, '__', h), c)` is decided in 0.5 s on some runs and not in 300 s on others):
+#   (a) the key has the shape KEYRE = (pickle__|'') identifier '__' hex{40};   (b) no string of that shape contains c / is empty
+R.lemma('C07/key-accepted/shape', vars={'q': 'Str', 'h': 'Str', 'prefix': 'Str'}, hyps=KEY_HYPS,
+    goal="is_key_shape(concat(prefix, q, '__', h))", serves=('C07',),
+    note='the key built by BaseCache.cache_key for a module-level task type has the shape prefix + identifier + __ + 40 hex digits')
 for _nm, _bad in (('dot', "'.'"), ('slash', "'/'"), ('backslash', "'\\\\'")):
-    R.lemma(f'C07/key-accepted/no-{_nm}', vars={'q': 'Str', 'h': 'Str', 'prefix': 'Str'}, hyps=KEY_HYPS,
-        goal=f"not contains(concat(prefix, q, '__', h), {_bad})", serves=('C07',),
+    R.lemma(f'C07/key-accepted/no-{_nm}', vars={'x': 'Str'}, hyps=[C("is_key_shape(x)", 'a key of the shape proved by C07/key-accepted/shape')],
+        goal=f"not contains(x, {_bad})", serves=('C07',),
         note='every key of a module-level task type passes validate_file_path_key\'s character test (os.path.sep is / or \\, altsep is None or /); the resolved-parent test is C18\'s')
-R.lemma('C07/key-accepted/non-empty', vars={'q': 'Str', 'h': 'Str', 'prefix': 'Str'}, hyps=KEY_HYPS,
-    goal="concat(prefix, q, '__', h) != ''", serves=('C07',))
+R.lemma('C07/key-accepted/non-empty', vars={'x': 'Str'}, hyps=[C("is_key_shape(x)", 'a key of the shape proved by C07/key-accepted/shape')],
+    goal="x != ''", serves=('C07',))
